@@ -184,14 +184,28 @@ func c16Pass(c *sim.Ctx, ops []c16Op, script []int, scfg sim.SourceCfg, span boo
 				}
 				off += l
 			}
-			// disturbances on the input buffer
-			if script[i]&1 == 1 || true {
-				for x := range in {
-					in[x] = 0xEE
+			// appending to a returned byte slice must not reach the input or another value
+			if script[i] == 1 || script[i] == 3 {
+				for q := range kept {
+					k := &kept[q]
+					if k.isStr || k.opIdx < i {
+						continue
+					}
+					grown := append(k.b, 0xA1, 0xA2, 0xA3, 0xA4, 0xA5, 0xA6, 0xA7, 0xA8)
+					_ = grown
+					c.Count("probe.append_to_result")
 				}
-				c.Count("probe.input_overwritten")
-				verify("the input buffer was overwritten", -1)
+				if d := firstDiff(in, input); d >= 0 {
+					c.Fail("ALIASING", "ReadBinary", sim.F{"disturbance": "append reached the input", "span": span}, "appending 8 bytes to a byte slice returned by ReadBinary changed the input buffer at offset %d (span cache %v)", d, span)
+				}
+				verify("8 bytes were appended to the byte slices decoded from this buffer", -1)
 			}
+			// disturbances on the input buffer
+			for x := range in {
+				in[x] = 0xEE
+			}
+			c.Count("probe.input_overwritten")
+			verify("the input buffer was overwritten", -1)
 		} else {
 			cfgS := scfg
 			cfgS.ErrAt = len(input)
@@ -219,6 +233,18 @@ func c16Pass(c *sim.Ctx, ops []c16Op, script []int, scfg sim.SourceCfg, span boo
 				} else {
 					keep(c16Kept{s: s, isStr: true, want: op.val, opIdx: i + k})
 				}
+			}
+			if script[i] == 1 || script[i] == 3 {
+				for q := range kept {
+					k := &kept[q]
+					if k.isStr || k.opIdx < i {
+						continue
+					}
+					grown := append(k.b, 0xA1, 0xA2, 0xA3, 0xA4, 0xA5, 0xA6, 0xA7, 0xA8)
+					_ = grown
+					c.Count("probe.append_to_result")
+				}
+				verify("8 bytes were appended to the byte slices decoded from this stream", -1)
 			}
 			br.Recycle()
 			c.GuardNoOOM("Release/DefaultReader", func() { dr.Release(nil) })
